@@ -185,10 +185,12 @@ Definition ws_results (c : ws_case) : list (outcome * fsys str) :=
         (explore 12 (w_policy c) (akeys (pv_files p0)) (w_roots c) (w_lint c) p0 new_report)
   end.
 
+(* when the commit stops half way the directories left behind depend on the order in which the Go
+   sets are walked: only the files are compared then *)
 Definition fs_matches (c : ws_case) (of : outcome * fsys str) : bool :=
   outcome_eqb (fst of) (w_out c)
   && map_eqb (fs_files (snd of)) (w_after_files c)
-  && set_eqb (fs_dirs (snd of)) (w_after_dirs c).
+  && (match fst of with OutCommitFailed => true | _ => set_eqb (fs_dirs (snd of)) (w_after_dirs c) end).
 
 Definition ws_agrees (c : ws_case) : bool := existsb (fs_matches c) (ws_results c).
 Definition ws_leaves (c : ws_case) : nat := length (ws_results c).
